@@ -78,8 +78,9 @@ let b2s b = if b then "1" else "0"
 let keywords kwfix is_lam = if kwfix then (if is_lam then ["lambda"] else ["def"]) else ["def"; "lambda"]
 
 (* cut a stream into call segments at the candidates the scan recorded (start.stop pairs):
-   glue = tokens after the previous stop up to the last NAME before the lambda, gap = between that
-   NAME and the lambda, body = between the lambda and its stop token *)
+   glue = tokens after the previous stop up to the NAME find_identifier returns with the lambda (the last
+   NAME before it that is not the keyword of a `name=` argument), gap = between that NAME and the lambda,
+   body = between the lambda and its stop token *)
 let rec take n l = if n <= 0 then [] else match l with [] -> [] | x :: r -> x :: take (n - 1) r
 let rec drop n l = if n <= 0 then l else match l with [] -> [] | _ :: r -> drop (n - 1) r
 let slice l a b = take (b - a) (drop a l)
@@ -89,8 +90,14 @@ let decompose (toks : tok list) (cands : (int * int) list) : segment list * tok 
   let rec go prev = function
     | [] -> ([], slice toks prev n)
     | (a, b) :: rest ->
-        let ni = ref (-1) in
-        for i = prev to a - 1 do if arr.(i).tkind = KName then ni := i done;
+        let ni = ref (-1) and pi = ref (-1) and was_name = ref false in
+        for i = prev to a - 1 do
+          if arr.(i).tkind = KName then (pi := !ni; ni := i; was_name := true)
+          else begin
+            if !was_name && arr.(i).tkind = KOp && arr.(i).ttext = "=" then ni := !pi;
+            was_name := false
+          end
+        done;
         if !ni < 0 || b >= n || a >= n then failwith "nodecomp";
         let g = { g_glue = slice toks prev !ni; g_name = arr.(!ni).ttext; g_row = arr.(!ni).trow;
                   g_gap = slice toks (!ni + 1) a; g_lrow = arr.(a).trow; g_body = slice toks (a + 1) b;
@@ -103,7 +110,8 @@ let handle (cmd : string) (args : string list) : string =
   match cmd, args with
   | "find", [rowfix; kwfix; streams; l; is_lam; dsrc; caller; fargs; ptab] ->
       let ss = streams_of streams in
-      show_outcome (find_gen (bool_of rowfix) (bool_of kwfix) (ptable_of ss ptab) ss
+      (* eqfix (the repair of d451731) is always in force on this path *)
+      show_outcome (find_gen (bool_of rowfix) (bool_of kwfix) true (ptable_of ss ptab) ss
                       (nat_of_int (int_of_string l)) (bool_of is_lam) (dsrc_of dsrc) (opt_of caller)
                       (strs_of fargs))
   | "cands", [kwfix; is_lam; streams] ->
@@ -121,7 +129,7 @@ let handle (cmd : string) (args : string list) : string =
                                 seen := (si, i, int_of_nat (ext_stop toks (nat_of_int i))) :: !seen) toks) ss
          | [] -> ());
         PArgs [] in
-      let (s, r) = backup p (keywords (bool_of kwfix) (bool_of is_lam)) ss O in
+      let (s, r) = backup p (keywords (bool_of kwfix) (bool_of is_lam)) true ss O in
       let tag = match r with
         | None -> "need" | Some (ScDone _) -> "done" | Some ScDef -> "def" | Some ScNone -> "none"
         | Some (ScCrash _) -> "crash" | Some (ScNoName _) -> "noname" in
@@ -154,7 +162,7 @@ let handle (cmd : string) (args : string list) : string =
                else let (g1, g0, g2) = split3 gr cr in (g :: g1, g0, g2)
            | _ -> failwith "nodecomp" in
          let (gs1, g0, gs2) = split3 gs cl in
-         let back = List.for_all (fun ts -> match scan_stream p ["lambda"] ts with ScNoName _ -> true | _ -> false)
+         let back = List.for_all (fun ts -> match scan_stream p ["lambda"] true ts with ScNoName _ -> true | _ -> false)
              (take si ss) in
          let pred = int_of_nat (seg_start g0 (nat_of_int (List.length (List.concat_map seg_toks gs1)))) in
          Printf.sprintf "%s%s%s%s %d" (b2s (layout_toks gs tail = toks)) (b2s back)
